@@ -6,6 +6,7 @@ import (
 	"encoding/json"
 	"fmt"
 	"os"
+	"sort"
 
 	"github.com/cloudwego/thriftgo/internal/verifsim/simrt"
 	"github.com/cloudwego/thriftgo/sdk"
@@ -54,10 +55,13 @@ func runCmdWorld(w *simrt.World, orig func()) {
 	// a session world: earlier invocations in the same process (as an SDK user would make them),
 	// then the invocation under observation
 	var sess struct {
-		Prelude       [][]string `json:"prelude"`
-		PreludeWd     []string   `json:"prelude_wd"`     // per earlier invocation: "" = sdk.InvokeThriftgo, else sdk.RunThriftgoAsSDK(wd, ...)
-		PreludeRemove []string   `json:"prelude_remove"` // removed after the earlier invocations (an obstacle that made one of them fail, repaired before the observed one)
-		SdkWd         string     `json:"sdk_wd"`         // not empty: the invocation under observation is sdk.RunThriftgoAsSDK(wd, nil, args...) instead of main()
+		Prelude       [][]string        `json:"prelude"`
+		PreludeWd     []string          `json:"prelude_wd"`     // per earlier invocation: "" = sdk.InvokeThriftgo, else sdk.RunThriftgoAsSDK(wd, ...)
+		PreludeRemove []string          `json:"prelude_remove"` // removed after the earlier invocations (an obstacle that made one of them fail, repaired before the observed one)
+		PreludeWrite  map[string][]byte `json:"prelude_write"`  // written after the earlier invocations (what happened to the disk in between)
+		PreludeMkdir  []string          `json:"prelude_mkdir"`
+		PreludeCwd    []string          `json:"prelude_cwd"` // per earlier invocation: the directory the process stands in meanwhile ("" = where it started)
+		SdkWd         string            `json:"sdk_wd"`      // not empty: the invocation under observation is sdk.RunThriftgoAsSDK(wd, nil, args...) instead of main()
 	}
 	if len(w.Spec.Driver) > 0 {
 		_ = json.Unmarshal(w.Spec.Driver, &sess)
@@ -74,6 +78,11 @@ func runCmdWorld(w *simrt.World, orig func()) {
 					}
 				}()
 				var err error
+				if i < len(sess.PreludeCwd) && sess.PreludeCwd[i] != "" {
+					if home, e := simrt.Getwd(); e == nil && simrt.Chdir(sess.PreludeCwd[i]) == nil {
+						defer simrt.Chdir(home)
+					}
+				}
 				if i < len(sess.PreludeWd) && sess.PreludeWd[i] != "" {
 					err = sdk.RunThriftgoAsSDK(sess.PreludeWd[i], nil, args[1:]...)
 				} else {
@@ -84,6 +93,19 @@ func runCmdWorld(w *simrt.World, orig func()) {
 		}
 		for _, p := range sess.PreludeRemove {
 			_ = simrt.Remove(p)
+		}
+		for _, p := range sess.PreludeMkdir {
+			_ = simrt.MkdirAll(p, 0o755)
+		}
+		if len(sess.PreludeWrite) > 0 {
+			names := make([]string, 0, len(sess.PreludeWrite))
+			for n := range sess.PreludeWrite {
+				names = append(names, n)
+			}
+			sort.Strings(names)
+			for _, n := range names {
+				_ = simrt.WriteFile(n, sess.PreludeWrite[n], 0o644)
+			}
 		}
 		if len(sess.Prelude) > 0 {
 			simrt.Boundary("main")
